@@ -402,6 +402,10 @@ def _used_names_in_file(filename: Path) -> Collection[str]:
     imported_names = tracing.get_imported_names(ast_root)
 
     names = []
+    for node in core.walk(ast_root, ast.ImportFrom):
+        # The import itself needs the name to exist, also when it is bound under an alias
+        names.extend(alias.name for alias in node.names)
+
     for node in core.walk(ast_root, (ast.Name, ast.Attribute)):
         if isinstance(node, ast.Name) and node.id in imported_names:
             names.append(node.id)
